@@ -13,7 +13,7 @@ from ..worlds import uni as U
 from .. import rng as R
 from .. import donors as DN
 
-from demeter.strategy.trigger import CustomizedTrigger
+from demeter.strategy.trigger import CustomizedTrigger, AtTimeTrigger
 
 ID = "C05"
 ORDER = ["initialize", "before_bar", "trigger", "on_bar", "after_bar", "notify"]
@@ -35,7 +35,20 @@ class TracedStrategy(ScriptedStrategy):
 
     def initialize(self):
         sim = self.sim
-        for k in range(int(sim.scenario.get("opts", {}).get("extra_triggers", 0))):
+        opts = sim.scenario.get("opts", {})
+        # triggers that expire during the run, registered in between the logged ones: when the loop retires one of them,
+        # the evaluation of its neighbours in that bar must not suffer
+        expiring = {}
+        for e in opts.get("expiring_triggers", []):
+            expiring.setdefault(int(e["pos"]), []).append(pd.Timestamp(e["time"]).to_pydatetime())
+        n_extra = int(opts.get("extra_triggers", 0))
+
+        def add_expiring(pos):
+            for t in expiring.get(pos, []):
+                self.triggers.append(AtTimeTrigger(t, lambda s: sim.event("trig_expiring_do", s.row_id)))
+
+        for k in range(n_extra):
+            add_expiring(k)
             fire_mod = 1 + (k % 3)
 
             def when(s, _k=k, _m=fire_mod):
@@ -46,6 +59,7 @@ class TracedStrategy(ScriptedStrategy):
                 sim.event("trig_do", _k, s.row_id)
 
             self.triggers.append(CustomizedTrigger(when, do))
+        add_expiring(n_extra)
         super().initialize()
 
 
@@ -106,7 +120,18 @@ def generate(seed: int, tier: str = "quick") -> dict:
         program.append(o)
     program.sort(key=lambda o: (o["bar"], ORDER.index(o["phase"])))
     opts = {"extra_triggers": rp.choice([0, 0, 1, 2, 3]), "trigger_phase": rp.random() < 0.5}
-    return {"property": ID, "seed": seed, "world": world, "program": program, "faults": [], "opts": opts}
+    faults = []
+    _add_expiring(R.sub(seed, "expiring"), opts, labels, faults)
+    return {"property": ID, "seed": seed, "world": world, "program": program, "faults": faults, "opts": opts}
+
+
+def _add_expiring(rx, opts, times, faults):
+    """0-3 AtTimeTriggers that fire (and are retired by the loop) on some bar, placed before / between / after the logged triggers"""
+    if (opts["extra_triggers"] or opts["trigger_phase"]) and rx.random() < 0.4 and len(times) >= 2:
+        opts["expiring_triggers"] = [
+            {"pos": rx.randint(0, opts["extra_triggers"]), "time": str(times[rx.randrange(len(times))])} for _ in range(rx.choice([1, 1, 2, 3]))
+        ]
+        faults.append({"kind": "trigger_retired_mid_list"})
 
 
 def gen_donor(seed, tier, donor):
@@ -123,6 +148,7 @@ def gen_donor(seed, tier, donor):
     prog.sort(key=lambda o: (o["bar"], ORDER.index(o["phase"])))
     opts = {"extra_triggers": rp.choice([0, 0, 1, 2, 3]), "trigger_phase": rp.random() < 0.5}
     faults = [{"kind": "donor:" + donor}]
+    _add_expiring(R.sub(seed, "expiring"), opts, DN.bar_times(base["world"]), faults)
     # an option market with many listed instruments: its (time, instrument) frame then has more ROWS than the minutely
     # co-market has minutes, although it has far fewer distinct timestamps (real order-book files list hundreds)
     w = base["world"]
